@@ -2,6 +2,7 @@ package main
 
 import (
 	"fmt"
+	"strings"
 	"sync"
 
 	"github.com/dunglas/mercure"
@@ -24,7 +25,10 @@ var c11Selectors = []string{
 }
 
 func c11Values(r *hx.Rng) uritemplate.Values {
-	pieces := []string{"a", "b", "_", "y", "z", "1", "/", ".", " ", "é", "%", "x_y"}
+	// unreserved, reserved (gen-delims and sub-delims: copied verbatim by {+x} and {#x}, escaped elsewhere) and characters
+	// that are never literal in a template
+	pieces := []string{"a", "b", "_", "y", "z", "1", "/", ".", " ", "é", "%", "x_y",
+		"'", "!", "$", "&", "(", ")", "*", "+", ",", ";", "=", ":", "@", "?", "#", "[", "]", "~", "-", "\"", "<", ">", "|", "^", "`", "\\"}
 	v := uritemplate.Values{}
 	for _, name := range []string{"x", "y", "id", "a", "b", "path", "frag", "ext", "seg", "p", "q"} {
 		v.Set(name, uritemplate.String(r.StringFrom(pieces, 3)))
@@ -52,6 +56,11 @@ func c11Topic(r *hx.Rng, sel string) string {
 		return r.StringFrom([]string{"_", "y", "z", "x", "a", "{x}", "b"}, 4)
 	case 4:
 		return r.Pick(c11Selectors)
+	}
+	if r.Chance(0.3) { // a literal prefix of the selector followed by reserved characters
+		if i := strings.IndexByte(sel, '{'); i >= 0 {
+			return sel[:i] + r.StringFrom([]string{"it's", "a", "!", "(", ")", "*", ";", "=", ",", "$", "&", "+", ":", "@", "/"}, 3)
+		}
 	}
 	return r.StringFrom([]string{"a", "b", "/", "_", "1"}, 4)
 }
